@@ -5,7 +5,7 @@ import ast
 
 from ..effects import EATTR, EDGE, NATTR, NODE, Effects
 from ..incidence import Balance, Infeasible, MethodAnalysis, Unsupported, compatible, describe_witness, show
-from ..model import CORE_CLASSES, AnalysisError
+from ..model import CORE_CLASSES, AnalysisError, FunctionInfo
 from ..paths import describe_valuation, valuations
 from ..selectors import inline_selectors
 from ..report import mk_finding
@@ -44,11 +44,170 @@ def external_writers(repo, eng: Effects):
     return out
 
 
+MUTABLE_CTORS = {"set", "list", "dict", "defaultdict", "OrderedDict", "bytearray", "deque"}
+
+
+def _is_mutable_expr(e, local_mut=()):
+    if isinstance(e, (ast.Set, ast.List, ast.Dict, ast.SetComp, ast.ListComp, ast.DictComp)):
+        return True
+    if isinstance(e, ast.Call) and isinstance(e.func, ast.Name) and e.func.id in MUTABLE_CTORS:
+        return True
+    if isinstance(e, ast.Call) and isinstance(e.func, ast.Attribute) and e.func.attr in ("copy", "union", "difference", "intersection", "symmetric_difference"):
+        return True
+    if isinstance(e, ast.Name) and e.id in local_mut:
+        return True
+    return False
+
+
+def _table_of(expr, selfname):
+    """'_node' / '_edge' / ... when expr is `self.<table>`."""
+    if isinstance(expr, ast.Attribute) and isinstance(expr.value, ast.Name) and expr.value.id == selfname and expr.attr in ("_node", "_edge", "_node_attr", "_edge_attr"):
+        return expr.attr
+    return None
+
+
+def desugar_table_updates(fi):
+    """`self._node.update({k: v for k in it})`, `self._node.update(dict.fromkeys(it, v))` and
+    `self._node.update((k, v) for k in it)` are the loop `for k in it: self._node[k] = v` as far as *which pairs* the
+    tables hold; the walker analyses the loop.  (That `fromkeys` evaluates v once and so stores one shared object under
+    every key is the business of R-SHARE, not of the pairing analysis.)"""
+    if not fi.params:
+        return fi
+    selfname = fi.params[0]
+    hits = []
+    for st in ast.walk(fi.node):
+        if isinstance(st, ast.Expr) and isinstance(st.value, ast.Call) and isinstance(st.value.func, ast.Attribute) and st.value.func.attr == "update" and _table_of(st.value.func.value, selfname) and len(st.value.args) == 1 and not st.value.keywords:
+            a = st.value.args[0]
+            form = None
+            if isinstance(a, ast.DictComp) and len(a.generators) == 1 and not a.generators[0].ifs and not a.generators[0].is_async:
+                form = (a.generators[0].target, a.generators[0].iter, a.key, a.value)
+            elif isinstance(a, ast.GeneratorExp) and len(a.generators) == 1 and not a.generators[0].ifs and isinstance(a.elt, ast.Tuple) and len(a.elt.elts) == 2:
+                form = (a.generators[0].target, a.generators[0].iter, a.elt.elts[0], a.elt.elts[1])
+            elif isinstance(a, ast.Call) and isinstance(a.func, ast.Attribute) and a.func.attr == "fromkeys" and isinstance(a.func.value, ast.Name) and a.func.value.id in ("dict", "OrderedDict") and len(a.args) == 2:
+                kv = ast.Name(id="_k_fromkeys", ctx=ast.Store())
+                form = (kv, a.args[0], ast.Name(id="_k_fromkeys", ctx=ast.Load()), a.args[1])
+            if form is not None:
+                hits.append(((st.lineno, st.col_offset), form))
+    if not hits:
+        return fi
+    import copy as _copy
+
+    node = _copy.deepcopy(fi.node)
+    index = dict(hits)
+
+    class T(ast.NodeTransformer):
+        def visit_Expr(self, st):
+            h = index.get((st.lineno, st.col_offset))
+            if h is None or not (isinstance(st.value, ast.Call) and isinstance(st.value.func, ast.Attribute) and st.value.func.attr == "update"):
+                return st
+            target, it, key, value = (_copy.deepcopy(x) for x in h)
+            tbl = _copy.deepcopy(st.value.func.value)
+            store = ast.Assign(targets=[ast.Subscript(value=tbl, slice=key, ctx=ast.Store())], value=value)
+            loop = ast.For(target=target, iter=it, body=[store], orelse=[])
+            ast.copy_location(loop, st)
+            ast.copy_location(store, st)
+            ast.fix_missing_locations(loop)
+            for sub in ast.walk(loop):
+                if hasattr(sub, "lineno"):
+                    sub.lineno = st.lineno
+                    sub.end_lineno = getattr(st, "end_lineno", st.lineno)
+            return loop
+
+    node = T().visit(node)
+    return FunctionInfo(fi.module, fi.name, fi.qualname, node, fi.cls, fi.parent)
+
+
+def share_sites(fnode, selfname):
+    """Yields (node, stmt, description, offending) for the two R-SHARE patterns in one function."""
+    parents = {}
+    for nd in ast.walk(fnode):
+        for ch in ast.iter_child_nodes(nd):
+            parents[id(ch)] = nd
+
+    def loops_of(nd):
+        out = []
+        cur = parents.get(id(nd))
+        while cur is not None and cur is not fnode:
+            if isinstance(cur, (ast.For, ast.AsyncFor, ast.While, ast.ListComp, ast.SetComp, ast.DictComp, ast.GeneratorExp)):
+                out.append(id(cur))
+            cur = parents.get(id(cur))
+        return out
+
+    mut_bind = {}
+    for nd in ast.walk(fnode):
+        if isinstance(nd, ast.Assign) and len(nd.targets) == 1 and isinstance(nd.targets[0], ast.Name):
+            mut_bind.setdefault(nd.targets[0].id, []).append((nd, _is_mutable_expr(nd.value)))
+    mut_names = {k for k, v in mut_bind.items() if any(m for _, m in v)}
+    for nd in ast.walk(fnode):
+        shared = None
+        if isinstance(nd, ast.Call) and isinstance(nd.func, ast.Attribute) and nd.func.attr == "fromkeys" and len(nd.args) == 2 and _is_mutable_expr(nd.args[1], mut_names):
+            shared = f"dict.fromkeys(..., {ast.unparse(nd.args[1])}) evaluates the value once"
+        if isinstance(nd, ast.BinOp) and isinstance(nd.op, ast.Mult) and isinstance(nd.left, ast.List) and len(nd.left.elts) == 1 and _is_mutable_expr(nd.left.elts[0], mut_names):
+            shared = f"[{ast.unparse(nd.left.elts[0])}] * n repeats one object"
+        if shared:
+            st = nd
+            while id(st) in parents and not isinstance(st, ast.stmt):
+                st = parents[id(st)]
+            reaches = any(_table_of(x, selfname) for x in ast.walk(st))
+            if not reaches and isinstance(st, ast.Assign) and len(st.targets) == 1 and isinstance(st.targets[0], ast.Name):
+                nm = st.targets[0].id
+                reaches = any(isinstance(s2, ast.stmt) and s2 is not st and not isinstance(s2, (ast.FunctionDef, ast.For, ast.While, ast.If, ast.Try, ast.With)) and any(isinstance(x, ast.Name) and x.id == nm for x in ast.walk(s2)) and any(_table_of(x, selfname) for x in ast.walk(s2)) for s2 in ast.walk(fnode))
+            yield nd, st, f"{shared}; every key of the table then holds the SAME set object, so the next in-place update of one node's (edge's) entry changes all of them while the other table is updated for one ID only", reaches
+        if isinstance(nd, ast.Assign) and isinstance(nd.value, ast.Name):
+            for t in nd.targets:
+                if isinstance(t, ast.Subscript) and _table_of(t.value, selfname) in ("_node", "_edge"):
+                    binds = mut_bind.get(nd.value.id, [])
+                    my_loops = loops_of(nd)
+                    bad = bool(my_loops) and bool(binds) and any(m for _, m in binds) and all(my_loops[0] not in loops_of(b) for b, _ in binds)
+                    yield nd, nd, f"`{ast.unparse(nd)}` stores the container `{nd.value.id}`, created once outside the loop, under every key the loop visits; all those entries are one object", bad
+
+
+_SHARE_POSITIVE = (
+    "def clear_edges(self):\n    self._node.update(dict.fromkeys(self._node, set()))\n",
+    "def reset(self, ns):\n    empty = set()\n    for n in ns:\n        self._node[n] = empty\n",
+)
+_SHARE_NEGATIVE = (
+    "def clear_edges(self):\n    for n in self._node:\n        self._node[n] = set()\n",
+    "def reset(self, ns):\n    for n in ns:\n        fresh = set()\n        self._node[n] = fresh\n",
+)
+
+
+def check_share(ctx, res, prop, cname):
+    """R-SHARE: every entry of the incidence tables is an object of its own.  The tables map an ID to a *mutable* set
+    that the other writer methods update in place (`self._node[n].add(e)`), so one object stored under two keys makes
+    every later single-entry update a multi-entry update - the pairing analysis, which identifies an entry with its
+    key, would be unsound without this premise.  Reported: (a) dict.fromkeys(keys, <mutable>) / [<mutable>] * n whose
+    result reaches a table (update argument, stored value, rebinding); (b) a store `table[k] = name` inside a loop
+    where `name` is bound to a mutable container outside that loop and not rebound inside it."""
+    for src in _SHARE_POSITIVE:
+        if not any(bad for *_x, bad in share_sites(ast.parse(src).body[0], "self")):
+            raise AnalysisError("R-SHARE self-check: an embedded positive example is no longer recognised")
+    for src in _SHARE_NEGATIVE:
+        if any(bad for *_x, bad in share_sites(ast.parse(src).body[0], "self")):
+            raise AnalysisError("R-SHARE self-check: an embedded negative example is reported")
+    repo = ctx.repo
+    ci = repo.get_class(cname)
+    n = nf = 0
+    for mname, fi in sorted(repo.all_methods(ci).items()):
+        if not fi.params:
+            continue
+        if ctx.only and ctx.only not in (fi.qualname, f"{cname}.{mname}"):
+            continue
+        nf += 1
+        for nd, st, msg, bad in share_sites(fi.node, fi.params[0]):
+            n += 1
+            if bad:
+                res.inst("R-SHARE", f"{cname}.{mname}:{nd.lineno} `{' '.join(ast.unparse(st).split())[:60]}`", False)
+                res.add(mk_finding(prop, "R-SHARE", fi, st, f"{cname}.{mname}: {msg}", role=f"{cname}:share"))
+    res.inst("R-SHARE", f"{nf} methods of {cname} scanned for one container stored under several keys ({n} candidate sites; embedded positive and negative examples behave)", True)
+
+
 def analyse_method(repo, res, prop, cname, fi, directed, writer_names, trusted=(), only_rules=None):
     """Runs the delta analysis on one method for every valuation of its mode names; adds findings."""
     n_paths = 0
     seen = set()
     fi = inline_selectors(repo, fi)
+    fi = desugar_table_updates(fi)
     for val in valuations(fi.node, with_strings=True):
         ma = MethodAnalysis(repo, fi, directed, val, trusted_params=trusted, writer_methods=writer_names, cname=cname)
         ma.helper_post = lambda m, cname=cname: helper_postcondition(repo, cname, m, directed, writer_names)
